@@ -464,6 +464,10 @@ def q_step_vs_run(env, name=None):
                     break
                 if o.f[0].variant == "Err":
                     rb = "error"
+                    # the step sequence must end after an error: one more step may not yield anything
+                    o2 = orig(f_next, [ctx.b])
+                    if o2.variant != "None":
+                        rb = "error-then-more"
                     break
             return Struct("tuple", [ra, Opaque(rb)])
         ex.call_fn = call_fn
@@ -481,7 +485,9 @@ def q_step_vs_run(env, name=None):
             ra, rb = r.ret.f
             c = r.ctx
             bad = None
-            if (ra.variant == "Ok") != (rb.tag == "finished"):
+            if rb.tag == "error-then-more":
+                bad = "after a failing step the iterator yields again instead of ending: stepping to exhaustion (for / collect) never terminates"
+            elif (ra.variant == "Ok") != (rb.tag == "finished"):
                 bad = f"run returns {ra.variant} but stepping ends with '{rb.tag}'"
             else:
                 sa = c.a.get().f[P.structs["Interpreter"].index("state")]
@@ -509,9 +515,9 @@ def q_step_vs_run(env, name=None):
                     "TOALTSTACK FROMALTSTACK EQUAL": "6b766c87", "DROP DROP DROP": "757575", "(empty)": ""}[label]
             scr = b"".join(bytes([len(i)]) + i for i in items) + bytes.fromhex(tail)
             req, nat = native(scr)
-            item = {"message": f"script [{label}] on stack {[i.hex() for i in items]}: {bad}", "request": req, "op_index": 0, "expected": {"same": True}, "native": nat}
+            item = {"message": f"script [{label}] on stack {[i.hex() for i in items]}: {bad}", "request": req, "op_index": 0, "expected": {"same": True, "stepping_ends": True}, "native": nat}
             reported = True
-            if any(v.get("ok") != {"same": True} for v in nat.values()):
+            if any(v.get("ok") != {"same": True, "stepping_ends": True} for v in nat.values()):
                 qr.violations.append(item)
             else:
                 qr.undecided.append(item["message"] + " — not reproduced natively: " + json.dumps(nat)[:200])
